@@ -304,6 +304,9 @@ func (m *Machine) valueEq(a, b Value) *Term {
 		return mkBool(a == b)
 	case *CtxObj:
 		return mkBool(a == b)
+	case *ReflType:
+		y, ok := b.(*ReflType)
+		return mkBool(ok && types.Identical(x.t, y.t))
 	case OpaqueVal:
 		y, ok := b.(OpaqueVal)
 		return mkBool(ok && x.tag == y.tag)
